@@ -294,7 +294,10 @@ iwrc iwfs_file_open(IWFS_FILE *f, const IWFS_FILE_OPTS *_opts) {
 #endif
   if (opts->lock_mode != IWP_NOLOCK) {
     rc = iwp_flock(impl->fh, opts->lock_mode);
-    RCGO(rc, finish);
+    if (rc) { // the file is open already: do not leave the descriptor behind
+      iwp_closefh(impl->fh);
+      goto finish;
+    }
   }
 finish:
   if (rc) {
